@@ -48,6 +48,32 @@ theorem C13_vf_render (skip : List String) (I : Inst) (ms ms' : Masters) (rank :
   · exact (vf_render_rel h.wf rel n hsk t ht _ _ (by omega) (by omega)).1
   · exact (vf_render_rel h.wf rel n hsk t ht (rank n + 1) (rank n + 1) (by omega) (by omega)).2
 
+theorem instanceAt_length_le (I : Inst) (ms : Masters) (t : Q) : (instanceAt I ms t).length ≤ (allNames ms).length := by
+  unfold instanceAt
+  exact List.length_filterMap_le _ _
+
+/-- **C13_vf_render with the default fuel on both sides**: `renderAt` of the filtered family, with ITS OWN fuel (number of
+    its glyph names + 2), is a permutation of `renderAt` of the family — what the two variable fonts show -/
+theorem C13_vf_render_default (skip : List String) (I : Inst) (ms ms' : Masters) (rank : String → Nat)
+    (orders : List (List String)) (h : WFSkip I ms rank)
+    (hcover : ∀ o, orders.head? = some o → ∀ n ∈ allNames ms, n ∈ o)
+    (hrun : skipFamily skip I ms orders = .ok ms') (n : String) (hsk : skip.contains n = false)
+    (t : Q) (ht : InHull I t) : (renderAt I ms' t n).Perm (renderAt I ms t n) := by
+  have rel := skipFamily_rel h.wf h.keys h.rankBound orders hcover ms' hrun
+  have hb := h.rankBound n
+  have main := (vf_render_rel h.wf rel n hsk t ht ((allNames ms).length + 2)
+    ((allNames ms').length + 2 + rank n + 1) (by omega) (by omega)).1
+  refine Perm.trans (Perm.of_eq ?_) main
+  unfold renderAt renderAtF
+  cases hg : glyphAt I ms' n t with
+  | none => rfl
+  | some g' =>
+    dsimp only
+    have hr := ranked_instance' h.wf rel t ht
+    have hlen := instanceAt_length_le I ms' t
+    exact render_fuel_len _ rank (fun a b c k hk _ => hr a b c k hk) n g' (by rw [instanceAt_get]; exact hg) _ _ _
+      (by omega) (by omega)
+
 /-- the filter on the level of the glyph data: at every location between the sources the glyph of the filtered family is
     the glyph of the family with its references to skipped glyphs replaced by their content at that location -/
 theorem C13_vf_glyph (skip : List String) (I : Inst) (ms ms' : Masters) (rank : String → Nat)
